@@ -65,8 +65,10 @@ type Case struct {
 	Preseed []Seeded `json:"preseed"`    // classes already taken before the run
 	Free    []int    `json:"free_slots"` // nodealloc: the slots of 1..1000 that are NOT pre-filled
 	Picks   []int    `json:"picks"`
-	FailAt  int      `json:"fail_at"` // -1: no injected store fault
-	Probe   bool     `json:"probe"`   // after the schedule: generate sequentially until the kind is exhausted
+	FailAt  int      `json:"fail_at"`               // -1: no injected store fault
+	FailOp  string   `json:"fail_op,omitempty"`     // "": any store operation; else only this one (Delete, SetNX, ...) counts for fail_at
+	Lost    bool     `json:"lost_answer,omitempty"` // the faulted write is applied but reports an error (else: not applied)
+	Probe   bool     `json:"probe"`                 // after the schedule: generate sequentially until the kind is exhausted
 }
 
 var idKinds = []string{"client", "node", "pmap", "user"}
@@ -458,6 +460,10 @@ func runCase(c Case, choose func(int, []string) int) result {
 		w.g.Stall = 3 * time.Millisecond // the fallback holds a local mutex across two store operations
 	}
 	w.g.FailAt = c.FailAt
+	w.amp.LostAnswer = c.Lost
+	if c.FailOp != "" {
+		w.g.FailFilter = func(s vkit.Step, _ bool) bool { return strings.HasSuffix(s.Op, "."+c.FailOp) }
+	}
 	w.g.Activate()
 	for i := range c.Tasks {
 		ti, t := i, c.Tasks[i]
@@ -607,6 +613,10 @@ func runNodeAlloc(c Case, choose func(int, []string) int) result {
 	w.g.MaxSteps = 4000
 	w.g.Stall = stall
 	w.g.FailAt = c.FailAt
+	w.amp.LostAnswer = c.Lost
+	if c.FailOp != "" {
+		w.g.FailFilter = func(s vkit.Step, _ bool) bool { return strings.HasSuffix(s.Op, "."+c.FailOp) }
+	}
 	w.g.Activate()
 	for i := range c.Tasks {
 		ti, t := i, c.Tasks[i]
@@ -763,6 +773,9 @@ func report(t vkit.TB, c Case, r result) {
 	}
 	if r.faulted {
 		vkit.Class("feat:single-store-fault")
+		if c.Lost {
+			vkit.Class("feat:fault-applied-but-answer-lost")
+		}
 	}
 	if r.rels > 0 {
 		vkit.Class("feat:release")
@@ -821,6 +834,11 @@ func genIDCase(t *rapid.T, mode string) Case {
 	c.Picks = rapid.SliceOfN(rapid.IntRange(0, 3), 0, 40).Draw(t, "picks")
 	if rapid.IntRange(0, 3).Draw(t, "fault") == 0 {
 		c.FailAt = rapid.IntRange(0, 10).Draw(t, "failAt")
+		c.Lost = rapid.Bool().Draw(t, "lostAnswer")
+		if rapid.Bool().Draw(t, "failWrites") {
+			c.FailOp = rapid.SampledFrom([]string{"Delete", "Delete", "SetNX"}).Draw(t, "failOp")
+			c.FailAt = rapid.IntRange(0, 3).Draw(t, "failAtW")
+		}
 	}
 	c.Probe = rapid.IntRange(0, 2).Draw(t, "probe") != 0
 	return c
@@ -1002,6 +1020,62 @@ func TestExhaustive(t *testing.T) {
 		}
 	}
 	vkit.AddExtra("dfs_schedules", int64(total))
+}
+
+// TestExhaustiveLostAnswer: every schedule of small programs in which ONE store write is
+// applied but reports an error (lost answer): a Release whose Delete went through, a claim
+// whose SetNX went through. Whatever the generator does after the error (give up, retry)
+// must not touch an id that another generator has obtained in the meantime.
+func TestExhaustiveLostAnswer(t *testing.T) {
+	stall = 2 * time.Second
+	defer func() { stall = 60 * time.Millisecond }()
+	type fprog struct {
+		name   string
+		ops    [][]Op
+		cands  [][]int
+		failOp string
+		failAt int
+		ks     []int // a lost SetNX answer leaks a marker: leave room, or the tree contains 100-attempt exhaustion runs
+	}
+	progs := []fprog{
+		{"gen;rel||gen (Delete lost)", [][]Op{{gen, rel0}, {gen}}, [][]int{{0}, {0, 0, 0}}, "Delete", 0, []int{2, 3}},
+		{"gen;rel;gen||gen;gen (Delete lost)", [][]Op{{gen, rel0, gen}, {gen, gen}}, [][]int{{0, 1, 0}, {0, 0, 1}}, "Delete", 0, []int{3, 4}},
+		{"gen;rel||gen||gen (Delete lost)", [][]Op{{gen, rel0}, {gen}, {gen}}, [][]int{{0}, {0, 0}, {0, 0}}, "Delete", 0, []int{3}},
+		{"gen;rel||gen;rel (2nd Delete lost)", [][]Op{{gen, rel0}, {gen, rel0}}, [][]int{{0, 1}, {0, 1, 0}}, "Delete", 1, []int{2, 3}},
+		{"gen;gen||gen (1st SetNX lost)", [][]Op{{gen, gen}, {gen}}, [][]int{{0, 0, 1}, {0, 1, 0}}, "SetNX", 0, []int{4}},
+		{"gen;rel||gen;gen (2nd SetNX lost)", [][]Op{{gen, rel0}, {gen, gen}}, [][]int{{0, 1}, {0, 1, 0}}, "SetNX", 1, []int{4}},
+	}
+	idx, total := 0, 0
+	for _, p := range progs {
+		for _, shared := range []bool{false, true} {
+			for _, k := range p.ks {
+				idx++
+				if !vkit.Mine(idx) {
+					continue
+				}
+				kind := idKinds[idx%len(idKinds)]
+				c := Case{Mode: "idgen", K: k, Shared: shared, Nodes: len(p.ops), FailAt: p.failAt, FailOp: p.failOp, Lost: true}
+				for i := range p.ops {
+					c.Tasks = append(c.Tasks, Task{Node: i, Kind: kind, Ops: p.ops[i], Cands: p.cands[i]})
+				}
+				d := &vkit.DFS{}
+				n := 0
+				const cap = 3000
+				for {
+					r := runCase(c, d.Choose)
+					c.Picks = d.Trace()
+					report(t, c, r)
+					n++
+					if !d.Next() || n > cap {
+						break
+					}
+				}
+				total += n
+				vkit.Exhaustive(fmt.Sprintf("lost-answer/%s/k=%d/shared=%v", p.name, k, shared), n <= cap && d.Diverged == 0)
+			}
+		}
+	}
+	vkit.AddExtra("dfs_schedules_lost_answer", int64(total))
 }
 
 func TestReplay(t *testing.T) {
